@@ -156,6 +156,7 @@ func (ts *treeStorage) Close() {
 	}
 	ts.Unlock()
 
+	verifAt("treestorage.closeWait", ts)
 	// Wait without the lock: a removal whose timer has already fired needs
 	// it to finish, and would otherwise block forever.
 	ts.wg.Wait()
